@@ -28,6 +28,10 @@ RULES = {
     "pair_elem": ("pr_n", None),     # pr = Pair(Inner)
 }
 ADV_KINDS = ["sig", "port", "inst", "array", "binst", "ncname"]
+# the object whose name starts the generated name, per rule (stretched for the length-limit cases)
+TRIG_OBJ = {"ref_group": "i0", "noconn": "i0", "noconn_named": "nnn", "bundle_member": "bb", "bundle_port": "pb", "nested_member": "b2",
+            "member_clash": "bc", "member_clash_port": "pc", "array_elem": "arr", "pair_elem": "pr"}
+MAXLEN = 511  # ElabPass.flatname's documented limit
 SUFFIX_SETS = [c for r in (1, 2, 3) for c in itertools.combinations(("", "_", "__"), r)]
 
 
@@ -41,12 +45,39 @@ def items(tier):
                 for order in ("before", "after"):
                     out.append((rule, kind, suffixes, order, n))
                     n += 1
+    # at the length limit: the generated name is MAXLEN - room characters long and the designer owns every candidate up to
+    # the limit (or all but the longest)
+    for rule in RULES:
+        for kind in (("sig", "port") if RULES[rule][1] else ("inst",)):
+            for room in (0, 1, 2):
+                full = tuple("_" * k for k in range(room + 1))
+                for suffixes in sorted({full, full[:-1] or full, full[1:] or full}):
+                    for order in ("before", "after"):
+                        out.append((rule, kind, suffixes, order, n, room))
+                        n += 1
     return out
 
 
+def _rename(x, old, new):
+    if isinstance(x, str):
+        return new if x == old else x
+    if isinstance(x, tuple):
+        return tuple(_rename(y, old, new) for y in x)
+    if isinstance(x, list):
+        return [_rename(y, old, new) for y in x]
+    if isinstance(x, dict):
+        return {k: _rename(v, old, new) for k, v in x.items()}
+    return x
+
+
 def design(desc):
-    rule, kind, suffixes, order, n = desc
+    rule, kind, suffixes, order, n = desc[:5]
     base, gw = RULES[rule]
+    stretch = None
+    if len(desc) > 5:
+        old = TRIG_OBJ[rule]
+        stretch = (old, old + "w" * (MAXLEN - desc[5] - len(base)))
+        base = stretch[1] + base[len(old):]
     exts = dict([probe_ext(1), probe_ext(2)])
     inner, en, ed = leaf_module("Inner", [("a", 1), ("b", 2)], tag=1)
     exts[en] = ed
@@ -84,6 +115,9 @@ def design(desc):
         trig += [("array", "arr", ("mod", "Inner"), 2, [("a", sig("s")), ("b", sig("v"))])]
     elif rule == "pair_elem":
         trig += [("pair", "pr", ("mod", "Inner"), [("a", sig("s")), ("b", sig("v"))])]
+    if stretch:
+        trig = _rename(trig, *stretch)
+        mods = _rename(mods, *stretch)
     # ---- adversaries ----
     adv = []
     for k, suf in enumerate(suffixes):
@@ -103,4 +137,4 @@ def design(desc):
             adv += [("inst", f"zz{k}", ("mod", "Inner"), [("a", nc(f"adv{k}", nm)), ("b", sig("v"))])]
     decls = (adv + trig) if order == "before" else (trig + adv)
     mods["Top"] = {"name": "Top", "style": ["proc", "class"][n % 2], "decls": decls}
-    return f"F8/{rule}/{kind}", {"bundles": BUND, "exts": exts, "modules": mods, "top": "Top"}
+    return f"F8/{rule}/{kind}" + ("/limit" if stretch else ""), {"bundles": BUND, "exts": exts, "modules": mods, "top": "Top"}
